@@ -79,6 +79,13 @@ mod write_fut;
 
 pub use external_links::LinksTaskConfig;
 pub use init::{AgentInitTask, InitTaskConfig};
+#[cfg(swimos_verif)]
+pub mod verif_hooks {
+    pub use super::links::{Links, TriggerUnlink};
+    pub use super::remotes::verif_hooks::Uplinks;
+    pub use super::remotes::{LaneRegistry, RemoteSender, RemoteTracker, UplinkResponse};
+    pub use super::write_fut::{SpecialAction, WriteAction, WriteTask};
+}
 use tokio::sync::{mpsc, oneshot};
 use tokio::time::{sleep, timeout, Instant, Sleep};
 use tokio_stream::wrappers::ReceiverStream;
